@@ -4303,8 +4303,16 @@ class NetCDFRead(IORead):
                     continue
 
                 #
-                if node_ncvar in g["auxiliary_coordinate"]:
-                    coord = g["auxiliary_coordinate"][node_ncvar].copy()
+                # The construct is only re-used for the same geometry
+                # container: another container may name the same
+                # node coordinate variable but have another geometry
+                # type or other interior rings.
+                cache_key = (
+                    self._get_geometry(field_ncvar, return_ncvar=True),
+                    node_ncvar,
+                )
+                if cache_key in g["auxiliary_coordinate"]:
+                    coord = g["auxiliary_coordinate"][cache_key].copy()
                 else:
                     coord = self._create_auxiliary_coordinate(
                         parent_ncvar=field_ncvar,
@@ -4318,7 +4326,7 @@ class NetCDFRead(IORead):
                     if geometry_type is not None:
                         self.implementation.set_geometry(coord, geometry_type)
 
-                    g["auxiliary_coordinate"][node_ncvar] = coord
+                    g["auxiliary_coordinate"][cache_key] = coord
 
                 # Insert auxiliary coordinate
                 logger.detail(
